@@ -4,6 +4,8 @@ import (
 	"go/ast"
 	"go/token"
 	"go/types"
+
+	"golang.org/x/tools/go/cfg"
 )
 
 func init() {
@@ -109,8 +111,9 @@ func ruleTraversalDistance(c *Ctx) {
 		c.und("traversal", fn.Decl.Pos(), "the call c.spatial.Nearby(dist, iter) was not found")
 		return
 	}
-	dl, ok1 := ast.Unparen(trav.Args[0]).(*ast.FuncLit)
-	il, ok2 := ast.Unparen(trav.Args[1]).(*ast.FuncLit)
+	// the callbacks: literals in place, or locals bound once to a literal (boxDist := func…)
+	dl, ok1 := ast.Unparen(resolveLocal(info, fn.Decl.Body, trav.Args[0])).(*ast.FuncLit)
+	il, ok2 := ast.Unparen(resolveLocal(info, fn.Decl.Body, trav.Args[1])).(*ast.FuncLit)
 	if !ok1 || !ok2 {
 		c.und("traversal", trav.Pos(), "the traversal callbacks are not function literals")
 		return
@@ -184,8 +187,13 @@ func ruleTraversalDistance(c *Ctx) {
 					}
 					return get(cl.Elts[0]) == "0" && get(cl.Elts[1]) == "1"
 				}
-				okFwd = only(call.Args[0], dps[0]) && only(call.Args[1], dps[1]) && only(call.Args[2], dps[2]) && only(call.Args[3], dps[3]) &&
-					idxOrder(call.Args[0]) && idxOrder(call.Args[1])
+				// arguments may be locals bound once inside the callback (lo := [2]float64{…})
+				args := make([]ast.Expr, 4)
+				for k := range args {
+					args[k] = resolveLocal(info, dl.Body, call.Args[k])
+				}
+				okFwd = only(args[0], dps[0]) && only(args[1], dps[1]) && only(args[2], dps[2]) && only(args[3], dps[3]) &&
+					idxOrder(args[0]) && idxOrder(args[1])
 			}
 		}
 	}
@@ -572,11 +580,119 @@ func ruleRadiusCutoff(c *Ctx) {
 		c.und("delivery", lit.Pos(), "no delivery of the object found in the iterator")
 		return
 	}
+	// edge classification, with flags such as hasRadius := maxDist > 0 resolved to their definition
+	resolveCond := func(e ast.Expr) ast.Expr {
+		if id, ok := ast.Unparen(e).(*ast.Ident); ok {
+			if r := resolveLocal(info, fn.Decl.Body, id); r != ast.Expr(id) {
+				return r
+			}
+		}
+		return e
+	}
+	radiusPos := func(e ast.Expr) bool { // maxDist > 0
+		be, ok := ast.Unparen(resolveCond(e)).(*ast.BinaryExpr)
+		if !ok {
+			return false
+		}
+		tv, has := info.Types[be.Y]
+		return be.Op == token.GTR && isIdO(be.X, maxO) && has && tv.Value != nil && tv.Value.String() == "0"
+	}
+	// decided(edge): the edge establishes dist <= maxDist or "no radius"; beyond(edge): it establishes dist > maxDist
+	classify := func(b *cfg.Block, si int) (decided, beyond bool) {
+		for _, f := range fg.edgeFacts(b, si) {
+			if f.Tag != nil {
+				continue
+			}
+			if withinFact(f) {
+				decided = true
+			}
+			if f.Neg && (radiusPos(f.E) || noRadius(resolveCond(f.E))) && radiusPos(f.E) {
+				decided = true // !(maxDist > 0): no radius
+			}
+			if !f.Neg && noRadius(resolveCond(f.E)) {
+				decided = true
+			}
+			if ok, negated := distGtMax(f.E); ok && (f.Neg == negated) {
+				beyond = true // dist > maxDist holds
+			}
+		}
+		return
+	}
+	anyTest := false
+	for _, b := range fg.G.Blocks {
+		for si := range b.Succs {
+			if len(b.Succs) == 2 {
+				if d, by := classify(b, si); d || by {
+					anyTest = true
+				}
+			}
+		}
+	}
 	for _, d := range deliveries {
-		guarded := false
-		for _, f := range fg.DominatingFacts(d) {
-			if f.Tag == nil && withinFact(f) {
-				guarded = true
+		dd := d
+		isDelivery := func(l Loc) bool { return l.Block == dd.Block && l.Idx == dd.Idx }
+		guarded := anyTest
+		// (1) no path reaches the delivery without a decision "within the radius" or "no radius"
+		if undecided, _ := fg.Reach(PathQuery{Target: isDelivery, EdgeOK: func(b *cfg.Block, si int) bool {
+			if len(b.Succs) != 2 {
+				return true
+			}
+			dec, _ := classify(b, si)
+			return !dec
+		}}); undecided {
+			guarded = false
+		}
+		// (2) once dist > maxDist is established (under a positive radius) the delivery is out of reach
+		for _, b := range fg.G.Blocks {
+			if len(b.Succs) != 2 || !fg.Reachable(b) {
+				continue
+			}
+			for si, sc := range b.Succs {
+				if _, by := classify(b, si); !by {
+					continue
+				}
+				scc := sc
+				if again, _ := reachBlockAvoiding2(fg, scc, isDelivery); again {
+					guarded = false
+				}
+			}
+		}
+		// (3) the traversal's distance is what is compared: dist is not re-assigned before a test of it
+		for _, b := range fg.G.Blocks {
+			if len(b.Succs) != 2 || !fg.Reachable(b) {
+				continue
+			}
+			dec, by := false, false
+			for si := range b.Succs {
+				d1, b1 := classify(b, si)
+				dec, by = dec || d1, by || b1
+			}
+			if !dec && !by {
+				continue
+			}
+			bb := b
+			if tainted, _ := fg.Reach(PathQuery{Target: func(l Loc) bool { return l.Block == bb && l.Idx == len(bb.Nodes)-1 },
+				Avoid: func(Loc) bool { return false }, EdgeOK: nil}); tainted {
+				// is there an assignment to dist on some path to the test?
+				assigned, _ := fg.Reach(PathQuery{Target: func(l Loc) bool {
+					as, ok := l.Node.(*ast.AssignStmt)
+					if !ok {
+						return false
+					}
+					for _, lh := range as.Lhs {
+						if isIdO(lh, distO) {
+							// … from which the test is still reachable
+							ll := l
+							if r, _ := fg.Reach(PathQuery{From: ll, Target: func(t Loc) bool { return t.Block == bb && t.Idx == len(bb.Nodes)-1 }}); r {
+								return true
+							}
+						}
+					}
+					return false
+				}})
+				if assigned {
+					guarded = false
+				}
 			}
 		}
 		c.check(guarded, "delivery-within-radius", d.Node.Pos(), "the object is delivered only on the false edge of maxDist > 0 && dist > maxDist", "an object can be delivered without the test `maxDist > 0 && dist > maxDist` having failed for the traversal's distance: objects beyond the radius are returned, or objects at exactly the radius are dropped")
@@ -590,7 +706,22 @@ func ruleRadiusCutoff(c *Ctx) {
 			}
 			o := info.ObjectOf(id)
 			if o == distO {
+				// the parameter itself; it may be zeroed when DISTANCE was not requested, nothing else
 				okDist = true
+				ast.Inspect(lit.Body, func(x ast.Node) bool {
+					if as, ok := x.(*ast.AssignStmt); ok {
+						for i, l := range as.Lhs {
+							if isIdO(l, distO) {
+								if i >= len(as.Rhs) {
+									okDist = false
+								} else if tv, ok := info.Types[as.Rhs[i]]; !ok || tv.Value == nil || tv.Value.String() != "0" {
+									okDist = false
+								}
+							}
+						}
+					}
+					return true
+				})
 				continue
 			}
 			if b, ok := o.Type().Underlying().(*types.Basic); !ok || b.Kind() != types.Float64 {
@@ -619,4 +750,35 @@ func ruleRadiusCutoff(c *Ctx) {
 		}
 		c.check(okDist, "reported-distance-is-traversal-distance", d.Node.Pos(), "the DISTANCE value delivered is the traversal's distance (or its zero value when not requested)", "the distance delivered with the object is not the traversal's distance for it")
 	}
+}
+
+// reachBlockAvoiding2: some node for which target holds is reachable from the start of block from.
+func reachBlockAvoiding2(fg *FlowGraph, from *cfg.Block, target func(Loc) bool) (bool, []ast.Node) {
+	seen := map[int32]bool{}
+	var walk func(b *cfg.Block) bool
+	walk = func(b *cfg.Block) bool {
+		if seen[b.Index] {
+			return false
+		}
+		seen[b.Index] = true
+		for i, n := range b.Nodes {
+			hit := false
+			inspectNoLit(n, func(x ast.Node) bool {
+				if target(Loc{b, i, x}) {
+					hit = true
+				}
+				return !hit
+			})
+			if hit || target(Loc{b, i, n}) {
+				return true
+			}
+		}
+		for _, s := range b.Succs {
+			if walk(s) {
+				return true
+			}
+		}
+		return false
+	}
+	return walk(from), nil
 }
